@@ -92,7 +92,19 @@ ExperimentOps(T) ==
     \cup {[op |-> "HandleIfs", p |-> p] : p \in TopSvcs(T) \cup DedPorts(T)}
     \cup {[op |-> "Navigate", p |-> p] : p \in El(T)}
 
-Ops(T) == IF Flavour = "substrate" THEN SubstrateOps(T) ELSE ExperimentOps(T)
+\* a small alphabet around facilities with several interfaces (Profile = "fac"): which of them are connected, in which
+\* order, when the facility / the service / one connection goes
+FacilityOps(T) ==
+         {[op |-> "Connect", s |-> s, i |-> i] : s \in TopSvcs(T), i \in {p \in NodeSideIfs(T) : T.el[p].type = "FacilityPort"}}
+    \cup {[op |-> "Disconnect", s |-> s, i |-> i] : s \in TopSvcs(T), i \in {p \in NodeSideIfs(T) : T.el[p].type = "FacilityPort"}}
+    \cup {[op |-> "RemoveFacility", name |-> n] : n \in {"f1", "n1"}}
+    \cup {[op |-> "RemoveNode", name |-> "f1"]}
+    \cup {[op |-> "RemoveService", name |-> "s1"]}
+    \cup {[op |-> "AddFacility", name |-> "f1", site |-> "S1", rp |-> <<>>, ifs |-> ifs] : ifs \in {<<"fa", "fb">>, <<"fa", "fb", "fa">>}}
+    \cup {[op |-> "Views"], [op |-> "Validate"]}
+    \cup {[op |-> "HandleIfs", p |-> p] : p \in TopSvcs(T)}
+
+Ops(T) == IF Flavour = "substrate" THEN SubstrateOps(T) ELSE IF Profile = "fac" THEN FacilityOps(T) ELSE ExperimentOps(T)
 
 N(name, site) == [op |-> "AddNode", name |-> name, site |-> site, ntype |-> "VM", rp |-> <<>>]
 C(n, name, m) == [op |-> "AddComponent", n |-> n, name |-> name, model |-> m]
@@ -115,7 +127,8 @@ SeedOps ==
                               [op |-> "Rename", p |-> "n1/c2/n1-c2-l2ovs/c2-p1", new |-> "data"] >>
       \* a facility with three interfaces, none connected yet (which one gets connected is the explorer's choice)
       [] Seed = "fac3"  -> << N("n1", "S1"), C("n1", "c1", "nic2"),
-                              [op |-> "AddFacility", name |-> "f1", site |-> "S1", rp |-> <<>>, ifs |-> <<"fa", "fb", "fc">>] >>
+                              [op |-> "AddFacility", name |-> "f1", site |-> "S1", rp |-> <<>>, ifs |-> <<"fa", "fb", "fc">>],
+                              [op |-> "AddService", name |-> "s1", nstype |-> "L2STS", site |-> "", rp |-> <<>>, ifs |-> <<"n1/c1/n1-c1-l2ovs/c1-p1">>] >>
       \* a richer seed: sub-interface connected to a service, a facility, two peered services
       [] Seed = "rich"  -> << N("n1", "S1"), C("n1", "c1", "nic2"), N("n2", "S2"), C("n2", "c1", "nic2"),
                               [op |-> "AddSubInterface", i |-> "n1/c1/n1-c1-l2ovs/c1-p2", name |-> "sub1", vlan |-> "100"],
